@@ -183,17 +183,19 @@ func findInlineNode(file *ast.File, comment *ast.Comment, fset *token.FileSet) (
 		return file.Decls[i].End() > commentPos
 	})
 
-	// If no declaration found, not inline
-	if idx >= len(file.Decls) {
+	// The comment may trail the last line of the preceding declaration
+	// (e.g. `var x = T{} // @ignore CODE1`): it is then outside of every declaration
+	if idx >= len(file.Decls) || commentPos < file.Decls[idx].Pos() {
+		if idx > 0 && fset.PositionFor(file.Decls[idx-1].End(), false).Line == commentLine {
+			if fileContent := fset.File(commentPos); fileContent != nil {
+				return fileContent.LineStart(commentLine), comment.End(), true
+			}
+		}
+		// Comment is between declarations (or after the last one), not inline
 		return 0, 0, false
 	}
 
 	decl := file.Decls[idx]
-
-	// If comment is before this declaration, not inline
-	if commentPos < decl.Pos() {
-		return 0, 0, false
-	}
 
 	// Comment is inside declaration - check if there's code on same line before comment
 	var hasCodeOnLine bool
